@@ -526,6 +526,13 @@ def plan_algebra(index):
             {"k": "scribble", "a": {"obj": "x", "i": i, "x": 2.5 + i}} for i in range(3)
         ] + [{"k": "scribble", "a": {"obj": "y", "i": rng.randrange(3), "x": 8.5}}]
     rng.shuffle(follow)
+    if kind == "v":
+        # a call that fails part-way (raising user function) must leave its
+        # arguments as they were: they are edited right afterwards
+        follow = [{"k": "eval", "out": "boomres", "outb": "bboom",
+                   "a": {"fn": rng.choice(("funceval", "celleval")), "f": "boom", "args": ["x"]}},
+                  {"k": "val_edit", "a": {"v": "x", "how": rng.choice(("assign", "slice", "imul")),
+                                          "sl": _slspec(rng, 3), "k": 1.25, "val": _vdesc(rng)}}] + follow
     ops += follow
     # the result is an operand of a further expression
     if what != "copy":
@@ -780,8 +787,13 @@ def plan_steps(index):
                 # a time-dependent boundary value and an in-place change of the storage field
                 ops.append({"k": "bc_edit", "a": {"bv": cur, "side": side, "coef": "c", "how": "assign",
                                                   "val": _coef(rng, side, "c"), "sl": []}})
-                if field:
+                if field and rng.random() < 0.5:
                     ops.append({"k": "val_edit", "a": {"v": "al", "how": "imul", "k": 1.5}})
+                elif field:
+                    ops += [{"k": "explicit", "out": "alE", "outb": "balE",
+                             "a": {"v": "al", "dt": 0.1,
+                                   "rhs": {"d": "rand", "lo": 0.1, "hi": 1.0, "s": _seed(rng)}}},
+                            {"k": "val_edit", "a": {"v": "al", "how": "update", "src": "alE"}}]
     label = "%s:%s:alpha-%s:dt=1e%d" % (cls, scheme, "field" if field else "scalar", e)
     return ops, label
 
